@@ -647,6 +647,12 @@ func (d *Decoder) decodeStructTo(v reflect.Value) error {
 }
 
 func (d *Decoder) decodeStructToStruct(v reflect.Value) error {
+	switch v.Type() {
+	case decimalType, bigIntType, timestampType, nativeTimeType:
+		// These Go structs stand for Ion scalars; an Ion struct is not one of them.
+		return fmt.Errorf("ion: cannot decode struct to %v", v.Type().String())
+	}
+
 	fields := fieldsFor(v.Type())
 
 	err := d.attachAnnotations(v)
